@@ -234,7 +234,8 @@ def handle_blame_shape(src):
     b = norm(strip_tests(src))
     for need in [
         "let key = formatted_blame_metadata.clone();",
-        "let is_repeat = previous_key.as_deref() == Some(&key);",
+        # the definition of `is_repeat` and where it flows (blanking, get_color, line number) is no longer
+        # pinned here: tools/extractors/blameflow.py translates it into Generated/BlameFlow.lean
         'formatted_blame_metadata = " ".repeat(measure_text_width(&formatted_blame_metadata))',
         "self.blame_key_colors.insert(key.to_owned(), color);",
         "self.state = State::Blame(key);",
